@@ -1,3 +1,301 @@
 import Driver.Common
--- stub driver for C17 (replaced when the property's model is built)
-def main (args : List String) : IO UInt32 := Driver.main' (fun _ => "bad-op") (fun _ _ => "fail bad-op") args
+import GilVerif.Model.C17
+open Driver GilVerif.Model.C17
+
+/-- source content of the harness: channel c of pixel (x,y) -/
+def val (x y c : Int) : Int := (x * 37 + y * 101 + c * 53 + 11) % 199
+
+/-- view kinds of the harness: number of channels, value offset (signed), float flag -/
+structure VT where
+  nch : Nat
+  off : Int
+  isF : Bool
+
+def VT.parse : String → Option VT
+  | "g8" => some ⟨1, 0, false⟩ | "rgb8" => some ⟨3, 0, false⟩ | "rgb8p" => some ⟨3, 0, false⟩
+  | "g16" => some ⟨1, 0, false⟩ | "g8s" => some ⟨1, -100, false⟩ | "g32f" => some ⟨1, 0, true⟩
+  | "sub" => some ⟨3, 0, false⟩ | "trn" => some ⟨1, 0, false⟩
+  | _ => none
+
+def VT.src (v : VT) (c : Nat) (x y : Int) : Int := val x y c + v.off
+def VT.sentinel (_ : VT) : Int := 7
+def chans (v : VT) : List Nat := List.range v.nch
+
+def joinC (xs : List Int) : String := ",".intercalate (xs.map toString)
+
+/-- result channel value printed by the harness for an exact accumulator -/
+def castQ (v : VT) (q : Rat) : Int := if v.isF then truncQ (q * 64) else truncQ q
+def showSrc (v : VT) (x : Int) : Int := if v.isF then x * 64 else x
+
+/-- result channel value for a double accumulator -/
+def castF (v : VT) (a : Float) : Int :=
+  if v.isF then f2i (Float.round (a.toFloat32.toFloat * 64.0)) else f2i a
+
+def pointTokenQ (v : VT) (bil : Bool) (w h nx ny D : Int) : String :=
+  if bil then
+    match (chans v).mapM (fun c => (bilinearQ w h (v.src c) nx ny D).map (fun r => castQ v r.2)) with
+    | some vs => joinC vs
+    | none => "o"
+  else
+    match nearestQ w h nx ny D with
+    | some (cx, cy) => joinC ((chans v).map (fun c => showSrc v (v.src c cx cy)))
+    | none => "o"
+
+def irange (n : Nat) : List Int := (List.range n).map Int.ofNat
+def rowPoints (nx0 n step : Int) : List Int := (irange n.toNat).map (fun i => nx0 + i * step)
+
+def tapToken (bil : Bool) (w h nx ny D : Int) : String :=
+  let g8 : VT := ⟨1, 0, false⟩
+  if bil then
+    match bilinearQ w h (g8.src 0) nx ny D with
+    | some (taps, acc) => ",".intercalate (taps.map (fun t => toString t.x ++ ":" ++ toString t.y)) ++ "=" ++ toString (truncQ acc)
+    | none => "o"
+  else
+    match nearestQ w h nx ny D with
+    | some (cx, cy) => toString cx ++ ":" ++ toString cy ++ "=" ++ toString (g8.src 0 cx cy)
+    | none => "o"
+
+def fOfBits (s : String) : Option Float := s.toNat?.map (fun n => Float.ofBits n.toUInt64)
+def bitsOf (x : Float) : String := toString x.toBits.toNat
+def showM (m : M32 Float) : String := " ".intercalate [bitsOf m.a, bitsOf m.b, bitsOf m.c, bitsOf m.d, bitsOf m.e, bitsOf m.f]
+def mOf : List Float → Option (M32 Float)
+  | [a, b, c, d, e, f] => some ⟨a, b, c, d, e, f⟩
+  | _ => none
+
+/-- dst dump of resample_pixels with the matrix (a..f)/8 (exact: every sample point is on the 1/8 grid) -/
+def resDump (v : VT) (bil : Bool) (w h dw dh : Int) (m : List Int) : String :=
+  match m with
+  | [a, b, c, d, e, f] =>
+    let rows := resample (P := String) (K := Int)
+      (fun p => let t := pointTokenQ v bil w h p.1 p.2 8; if t == "o" then none else some t)
+      (fun xy => (a * xy.1 + c * xy.2 + e, b * xy.1 + d * xy.2 + f))
+      (fun _ _ => joinC ((chans v).map (fun _ => showSrc v v.sentinel))) dw.toNat dh.toNat
+    " ".intercalate (rows.map (" ".intercalate ·))
+  | _ => "bad-op"
+
+/-- dst dump of resize_view, with the code's double arithmetic -/
+def rszDump (v : VT) (bil : Bool) (w h dw dh : Int) : String :=
+  let m := M32.resize (Float.ofInt w) (Float.ofInt h) (Float.ofInt dw) (Float.ofInt dh) (Float.sin (-0.0))
+  let rows := resample (P := String) (K := Float)
+    (fun p =>
+      if bil then ((chans v).mapM (fun c => (bilinearF w h (v.src c) p.1 p.2).map (castF v))).map joinC
+      else (nearestF w h p.1 p.2).map (fun cxy => joinC ((chans v).map (fun c => showSrc v (v.src c cxy.1 cxy.2)))))
+    (fun xy => m.apply (Float.ofInt xy.1, Float.ofInt xy.2))
+    (fun _ _ => joinC ((chans v).map (fun _ => showSrc v v.sentinel))) dw.toNat dh.toNat
+  " ".intercalate (rows.map (" ".intercalate ·))
+
+def model (line : String) : String :=
+  match words line with
+  | [k, vt, _, w, h, D, ny, nx0, n, step] =>
+    match ints [w, h, D, ny, nx0, n, step] with
+    | some [w, h, D, ny, nx0, n, step] =>
+      if k == "tap" then " ".intercalate ((rowPoints nx0 n step).map (fun nx => tapToken (vt == "b") w h nx ny D))
+      else match VT.parse vt with
+        | some v => if k == "bil" || k == "near" then
+            " ".intercalate ((rowPoints nx0 n step).map (fun nx => pointTokenQ v (k == "bil") w h nx ny D)) else "bad-op"
+        | none => "bad-op"
+    | _ => "bad-op"
+  | "res" :: vt :: s :: rest =>
+    match VT.parse vt, ints rest with
+    | some v, some (w :: h :: dw :: dh :: m) => let d := resDump v (s == "b") w h dw dh m; d ++ " | " ++ d
+    | _, _ => "bad-op"
+  | ["rsz", vt, s, w, h, dw, dh] =>
+    match VT.parse vt, ints [w, h, dw, dh] with
+    | some v, some [w, h, dw, dh] => rszDump v (s == "b") w h dw dh
+    | _, _ => "bad-op"
+  | "mmul" :: rest =>
+    match rest.mapM fOfBits with
+    | some fs => match mOf (fs.take 6), mOf (fs.drop 6) with
+      | some a, some b => showM (M32.mul a b)
+      | _, _ => "bad-op"
+    | none => "bad-op"
+  | "massoc" :: rest =>
+    match rest.mapM fOfBits with
+    | some fs => match mOf (fs.take 6), mOf ((fs.drop 6).take 6), mOf (fs.drop 12) with
+      | some a, some b, some c => showM (M32.mul (M32.mul a b) c) ++ " " ++ showM (M32.mul a (M32.mul b c))
+      | _, _, _ => "bad-op"
+    | none => "bad-op"
+  | "minv" :: rest =>
+    match rest.mapM fOfBits with
+    | some fs => match mOf fs with
+      | some a => showM (M32.inverse a)
+      | none => "bad-op"
+    | none => "bad-op"
+  | "mtr" :: rest =>
+    match rest.mapM fOfBits with
+    | some fs => match mOf (fs.take 6), fs.drop 6 with
+      | some a, [x, y] => let p := a.apply (x, y); bitsOf p.1 ++ " " ++ bitsOf p.2
+      | _, _ => "bad-op"
+    | none => "bad-op"
+  | "mrt" :: rest =>
+    match rest.mapM fOfBits with
+    | some fs => match mOf (fs.take 6), fs.drop 6 with
+      | some a, [x, y] => let p := (M32.inverse a).apply (a.apply (x, y)); bitsOf p.1 ++ " " ++ bitsOf p.2
+      | _, _ => "bad-op"
+    | none => "bad-op"
+  | ["mgen", k, x, y] =>
+    match fOfBits x, fOfBits y with
+    | some x, some y =>
+      if k == "t" then showM (M32.translate x y) else if k == "s" then showM (M32.scale x y)
+      else if k == "r" then showM (M32.rotate (Float.cos x) (Float.sin x)) else "bad-op"
+    | _, _ => "bad-op"
+  | _ => "bad-op"
+
+/-! ### judge: the Spec on the implementation's observation -/
+
+/-- exact value of a finite double -/
+def ratOfFloat (x : Float) : Option Rat :=
+  let b := x.toBits.toNat
+  let sign : Rat := if b / 2 ^ 63 = 1 then -1 else 1
+  let ex : Nat := (b / 2 ^ 52) % 2048
+  let man : Nat := b % 2 ^ 52
+  if ex = 2047 then none
+  else if ex = 0 then some (sign * (man : Rat) / ((2 : Rat) ^ 1074))
+  else
+    let mn : Nat := man + 2 ^ 52
+    let m : Rat := (mn : Rat)
+    some (if ex ≥ 1075 then sign * m * ((2 : Rat) ^ (ex - 1075)) else sign * m / ((2 : Rat) ^ (1075 - ex)))
+
+def absQ (q : Rat) : Rat := if q < 0 then -q else q
+
+def parseC (tok : String) : Option (List Int) := (tok.splitOn ",").mapM String.toInt?
+
+/-- Spec for one sampled point: `none` = satisfied -/
+def judgePoint (v : VT) (w h nx ny D : Int) (tok : String) : Option String :=
+  if tok == "X" then some "outside-but-result-modified"
+  else if tok == "o" then (if inDomain w h nx ny D then some "inside-reported-outside" else none)
+  else match parseC tok with
+    | none => some "not-a-value"
+    | some vs =>
+      if vs.length ≠ v.nch then some "shape" else
+      let sur := surrounding w h nx ny D
+      let bad := (chans v).zip vs |>.any (fun (c, x) =>
+        let ss := sur.map (fun q => showSrc v (v.src c q.1 q.2))
+        !(ss.any (· ≤ x) && ss.any (· ≥ x)))
+      if bad then some "convex"
+      else if nx % D = 0 ∧ ny % D = 0 ∧ inDomain w h nx ny D ∧
+              vs ≠ (chans v).map (fun c => showSrc v (v.src c (nx / D) (ny / D))) then some "integer-point"
+      else none
+
+def firstSome {α} (xs : List α) (f : α → Option String) : Option String :=
+  xs.foldl (fun acc x => match acc with | some e => some e | none => f x) none
+
+def judgeTap (w h nx ny D : Int) (tok : String) : Option String :=
+  let g8 : VT := ⟨1, 0, false⟩
+  if tok == "X" || tok == "o" then judgePoint g8 w h nx ny D tok else
+  match tok.splitOn "=" with
+  | [cs, v] =>
+    let coords := (cs.splitOn ",").map (fun s => (s.splitOn ":").mapM String.toInt?)
+    if coords.any (fun c => match c with
+        | some [x, y] => !(decide (0 ≤ x) && decide (x < w) && decide (0 ≤ y) && decide (y < h))
+        | _ => true) then some "read-outside"
+    else if coords.length > 4 then some "more-than-four-pixels"
+    else judgePoint g8 w h nx ny D v
+  | _ => some "not-a-value"
+
+def closeQ (a b tol : Rat) : Bool := absQ (a - b) ≤ tol
+
+def judge (op obs : String) : String :=
+  let fail (s : String) := "fail " ++ s
+  match words op with
+  | [k, vt, _, w, h, D, ny, nx0, n, step] =>
+    match ints [w, h, D, ny, nx0, n, step] with
+    | some [w, h, D, ny, nx0, n, step] =>
+      let toks := words obs
+      let pts := rowPoints nx0 n step
+      if toks.length ≠ pts.length then fail "shape" else
+      if k == "tap" then
+        match firstSome (pts.zip toks) (fun (nx, t) => judgeTap w h nx ny D t) with
+        | some e => fail e | none => "ok"
+      else match VT.parse vt with
+        | some v => match firstSome (pts.zip toks) (fun (nx, t) => judgePoint v w h nx ny D t) with
+          | some e => fail e | none => "ok"
+        | none => fail "bad-op"
+    | _ => fail "bad-op"
+  | "res" :: vt :: _ :: rest =>
+    match VT.parse vt, ints rest with
+    | some v, some [w, h, dw, dh, a, b, c, d, e, f] =>
+      match obs.splitOn " | " with
+      | [l, r] =>
+        if words l ≠ words r then fail "resample-loop" else
+        let toks := words l
+        if toks.length ≠ (dw * dh).toNat then fail "shape" else
+        let sent := joinC ((chans v).map (fun _ => showSrc v v.sentinel))
+        let idx := (irange dh.toNat).flatMap (fun y => (irange dw.toNat).map (fun x => (x, y)))
+        match firstSome (idx.zip toks) (fun (xy, t) =>
+            let nx := a * xy.1 + c * xy.2 + e; let ny := b * xy.1 + d * xy.2 + f
+            -- an untouched destination pixel means the sampler said "outside" for its source point
+            if t == sent ∧ ¬ inDomain w h nx ny 8 then none else judgePoint v w h nx ny 8 t) with
+        | some e => fail e | none => "ok"
+      | _ => fail "shape"
+    | _, _ => fail "bad-op"
+  | ["rsz", vt, _, w, h, dw, dh] =>
+    match VT.parse vt, ints [w, h, dw, dh] with
+    | some v, some [w, h, dw, dh] =>
+      let toks := words obs
+      if toks.length ≠ (dw * dh).toNat then fail "shape"
+      else if w = dw ∧ h = dh then
+        let want := (irange h.toNat).flatMap (fun y => (irange w.toNat).map (fun x =>
+          joinC ((chans v).map (fun c => showSrc v (v.src c x y)))))
+        if toks = want then "ok" else fail "resize-identity"
+      else
+        -- every destination pixel is sampled (none left at the sentinel unless the source holds it) and within the source's range
+        let bad := toks.any (fun t => match parseC t with
+          | some vs => (chans v).zip vs |>.any (fun (c, x) =>
+              let all := (irange h.toNat).flatMap (fun y => (irange w.toNat).map (fun xx => showSrc v (v.src c xx y)))
+              !(all.any (· ≤ x) && all.any (· ≥ x)))
+          | none => true)
+        if bad then fail "convex" else "ok"
+    | _, _ => fail "bad-op"
+  | k :: rest =>
+    let mats := rest.mapM fOfBits
+    let outs := (words obs).mapM fOfBits
+    match mats, outs with
+    | some fs, some os =>
+      match fs.mapM ratOfFloat, os.mapM ratOfFloat with
+      | some q, some o =>
+        let tolOf (xs : List Rat) : Rat := (xs.foldl (fun a x => a + absQ x) 1) * (1 / 1000000000)
+        let mulQ (m1 m2 : List Rat) : List Rat := match m1, m2 with
+          | [a1, b1, c1, d1, e1, f1], [a2, b2, c2, d2, e2, f2] =>
+            [a1 * a2 + b1 * c2, a1 * b2 + b1 * d2, c1 * a2 + d1 * c2, c1 * b2 + d1 * d2, e1 * a2 + f1 * c2 + e2, e1 * b2 + f1 * d2 + f2]
+          | _, _ => []
+        let closeL (xs ys : List Rat) (tol : Rat) : Bool := xs.length == ys.length && (xs.zip ys).all (fun (x, y) => closeQ x y tol)
+        if k == "mmul" then
+          let want := mulQ (q.take 6) (q.drop 6)
+          if o.length == 6 && closeL o want (tolOf want) then "ok" else fail "product"
+        else if k == "massoc" then
+          if o.length == 12 && closeL (o.take 6) (o.drop 6) (tolOf (o.take 6) * 1000) then "ok" else fail "associative"
+        else if k == "minv" then
+          let id : List Rat := [1, 0, 0, 1, 0, 0]
+          let t := tolOf o * tolOf q * 1000000000
+          if o.length == 6 && closeL (mulQ o q) id t && closeL (mulQ q o) id t then "ok" else fail "inverse"
+        else if k == "mtr" then
+          match q, o with
+          | [a, b, c, d, e, f, x, y], [rx, ry] =>
+            if closeQ rx (a * x + c * y + e) (tolOf q) && closeQ ry (b * x + d * y + f) (tolOf q) then "ok" else fail "transform"
+          | _, _ => fail "shape"
+        else if k == "mrt" then
+          match q, o with
+          | [a, b, c, d, _, _, x, y], [rx, ry] =>
+            let det := absQ (a * d - b * c)
+            let t := tolOf q * tolOf q * 1000 / (if det = 0 then 1 else det)
+            if closeQ rx x t && closeQ ry y t then "ok" else fail "maps-back"
+          | _, _ => fail "shape"
+        else fail "bad-op"
+      | _, _ => fail ("not-a-value:" ++ (obs.take 40).toString)
+    | _, _ =>
+      match words op, (words obs).mapM fOfBits with
+      | ["mgen", g, x, y], some [a, b, c, d, e, f] =>
+        match fOfBits x, fOfBits y with
+        | some x, some y =>
+          if g == "t" then (if a == 1 && b == 0 && c == 0 && d == 1 && e == x && f == y then "ok" else fail "translate")
+          else if g == "s" then (if a == x && b == 0 && c == 0 && d == y && e == 0 && f == 0 then "ok" else fail "scale")
+          else if g == "r" then
+            (if a == d && b == -c && e == 0 && f == 0 && Float.abs (a * a + b * b - 1) < 1e-12
+                && Float.abs (a - Float.cos x) < 1e-12 && Float.abs (b - Float.sin x) < 1e-12 then "ok" else fail "rotate")
+          else fail "bad-op"
+        | _, _ => fail "bad-op"
+      | _, _ => fail ("not-a-value:" ++ (obs.take 40).toString)
+  | _ => fail "bad-op"
+
+def main (args : List String) : IO UInt32 := Driver.main' model judge args
